@@ -7,6 +7,7 @@ CONSTANTS
   CallSeqs <- Calls2
   MaxGen = 2
   AllowExplicit = FALSE
+  Bug = "none"
 INVARIANT CommittedUntorn
 INVARIANT LatestNeverDeleting
 INVARIANT RestoreSound
